@@ -60,7 +60,7 @@ struct Container {
     wrap: Wrap,
 }
 
-fn vba_desc(seed: u64) -> ovba::VbaProjectDesc {
+pub fn vba_desc(seed: u64) -> ovba::VbaProjectDesc {
     use crate::props::c18;
     let tok = |m: u8| ovba::Tokenisation { mode: m, seed: seed | 1, raw_mask: 0 };
     let src = |k: u8, len: u32| c18::source(&c18::SourceSpec { kind: k, len, seed: seed as u32 });
@@ -228,7 +228,7 @@ fn at(len: usize, k: u32) -> usize {
 }
 
 const NUMS: &[&str] = &["0", "1", "-1", "4294967295", "4294967296", "2147483648", "99999999999999999999", "65536", "16385", "1048577", "1e9", "", "x"];
-const REFS: &[&str] = &["", "A0", "0", "1A", "XFE1", "A1048577", "B5:A1", "A1:A4000000000", "A1:XFD1048576", "$A$1", "a1", "A1:B2:C3", "A", "AAAAAAAAAA1", "A99999999999", "ZZZZZ1:A1", "A1:", ":A1", "A4294967296", "A1:A1048576"];
+const REFS: &[&str] = &["", "A0", "0", "1A", "XFE1", "A1048577", "B5:A1", "A1:A4000000000", "A1:XFD1048576", "$A$1", "a1", "A1:B2:C3", "A", "AAAAAAAAAA1", "A99999999999", "ZZZZZ1:A1", "A1:", ":A1", "A4294967296", "A1:A1048576", "C1:A5", "B1:A3", "A5:C1", "XFD1:A2"];
 
 /// occurrences of `name="value"` attribute values matching a predicate: (start, end) of the value
 fn attr_values(s: &str, pred: &dyn Fn(&str, &str) -> bool) -> Vec<(usize, usize)> {
@@ -868,7 +868,9 @@ fn tolerated(func: &str, class: &str, findings: &Findings) -> Option<String> {
     findings
         .findings
         .iter()
-        .find(|f| f.property == "C06" && f.status == "known" && f.sig_func.as_deref() == Some(func) && f.sig_class.as_ref().map_or(true, |c| class.contains(c.as_str())))
+        // sig_func may list several call sites of one finding ("a|b"): the same allocation shows under
+        // the caller's name where the compiler inlined the generic function
+        .find(|f| f.property == "C06" && f.status == "known" && f.sig_func.as_deref().map_or(false, |s| s.split('|').any(|x| x == func)) && f.sig_class.as_ref().map_or(true, |c| class.contains(c.as_str())))
         .map(|f| f.id.clone())
 }
 
